@@ -892,6 +892,7 @@ def run(tier, replay):
     c.use_flavour("plain")
     c02_files.run_files(c, tier)
     c02_files.run_runtime(c, tier)
+    c02_files.run_pairlist(c, tier)
     c02_paths.run_paths(c, tier)
 
     c.extra["worst_rel_dev"] = {k: {"relative_deviation": v[0], "fraction_of_tolerance": v[1]} for k, v in tl.worst.items()}
